@@ -154,6 +154,7 @@ func (z *E6) MulBy014(c0, c1, c4 *fp.Element) *E6 {
 
 	var a, b E3
 	var d fp.Element
+	c0Copy := *c0 // c0 may point to a coordinate of z, which is written before its last use
 
 	a.Set(&z.B0)
 	a.MulBy01(c0, c1)
@@ -163,7 +164,7 @@ func (z *E6) MulBy014(c0, c1, c4 *fp.Element) *E6 {
 	d.Add(c1, c4)
 
 	z.B1.Add(&z.B1, &z.B0)
-	z.B1.MulBy01(c0, &d)
+	z.B1.MulBy01(&c0Copy, &d)
 	z.B1.Sub(&z.B1, &a)
 	z.B1.Sub(&z.B1, &b)
 	z.B0.MulByNonResidue(&b)
@@ -177,6 +178,7 @@ func (z *E6) MulBy01(c0, c1 *fp.Element) *E6 {
 
 	var a, b E3
 	var d fp.Element
+	c0Copy := *c0 // c0 may point to a coordinate of z, which is written before its last use
 
 	a.Set(&z.B0)
 	a.MulBy01(c0, c1)
@@ -185,7 +187,7 @@ func (z *E6) MulBy01(c0, c1 *fp.Element) *E6 {
 	d.SetOne().Add(c1, &d)
 
 	z.B1.Add(&z.B1, &z.B0)
-	z.B1.MulBy01(c0, &d)
+	z.B1.MulBy01(&c0Copy, &d)
 	z.B1.Sub(&z.B1, &a)
 	z.B1.Sub(&z.B1, &b)
 	z.B0.MulByNonResidue(&b)
